@@ -9,7 +9,6 @@ import (
 	"github.com/tonkeeper/tongo/boc"
 	"github.com/tonkeeper/tongo/liteclient"
 	"github.com/tonkeeper/tongo/tl"
-	"github.com/tonkeeper/tongo/tlb"
 
 	"verifharness/internal/core"
 	"verifharness/internal/ref"
@@ -49,9 +48,13 @@ var tlbRaw = &core.Check{Name: "c08/tlb-raw", Hang: hang, Fn: func(c *core.Ctx) 
 	if len(in) < 2 {
 		return nil
 	}
-	t := tlbTypes[(int(in[0])<<8|int(in[1]))%len(tlbTypes)]
+	sel := int(in[0])<<8 | int(in[1])
+	t := tlbTypes[sel%len(tlbTypes)]
+	// the selector's quotient picks the decoder configuration (0: the caching decoder, as before)
+	d := rawDecoders[sel/len(tlbTypes)%len(rawDecoders)]
 	data := in[2:]
 	c.Note("type", typeName(t))
+	c.Note("decoder", decoderNames[d])
 	roots, err := ref.ParseBOC(data)
 	if err != nil || len(roots) == 0 {
 		return nil
@@ -68,16 +71,18 @@ var tlbRaw = &core.Check{Name: "c08/tlb-raw", Hang: hang, Fn: func(c *core.Ctx) 
 	out := reflect.New(t)
 	var perr error
 	alloc := core.AllocDelta(func() {
-		perr = core.Protect(func() error { tlb.NewDecoder().Unmarshal(cells[0], out.Interface()); return nil })
+		perr = core.Protect(func() error { runDecoder(newDecoder(d, fixedLibTree, nil), cells[0], out.Interface()); return nil })
 	})
 	if perr != nil {
-		return fmt.Errorf("decoding into %s panicked: %v\ninput BOC %x", typeName(t), perr, trunc(data))
+		return fmt.Errorf("decoding into %s with %s panicked: %v\ninput BOC %x", typeName(t), describeDecoder(d), perr, trunc(data))
 	}
-	if bound := uint64(16<<20) + uint64(64<<10)*uint64(u); alloc > bound {
+	if bound := uint64(16<<20) + uint64(64<<10)*uint64(u)*uint64(1+fixedLibTree.cells()); alloc > bound {
 		return fmt.Errorf("decoding into %s allocated %d bytes for a tree that unfolds to %d cells\ninput BOC %x", typeName(t), alloc, u, trunc(data))
 	}
 	return nil
 }}
+
+var rawDecoders = []int{decHasher, decDebug, decDebugResolver, decPlain, decZeroDebug, decResolver, decDebugNotFound}
 
 func fuzzSeedsTL() [][]byte {
 	var out [][]byte
@@ -107,6 +112,13 @@ func fuzzSeedsTLB() [][]byte {
 	b := ref.SerializeBOC([]*ref.RCell{root}, ref.BocVariant{})
 	for i := 0; i < len(tlbTypes); i += 7 {
 		out = append(out, append([]byte{byte(i >> 8), byte(i)}, b...))
+	}
+	// the same with the debug-mode decoders
+	for k := 1; k < len(rawDecoders); k++ {
+		for i := k; i < len(tlbTypes) && (k+1)*len(tlbTypes) <= 1<<16; i += 131 {
+			sel := k*len(tlbTypes) + i
+			out = append(out, append([]byte{byte(sel >> 8), byte(sel)}, b...))
+		}
 	}
 	return out
 }
